@@ -253,8 +253,42 @@ static int tsl_catch(struct uprobe *uprobe, struct upipe *upipe, int event, va_l
     }
 }
 
+/* vh.c replaces AddressSanitizer's SIGSEGV handler by its own, which gives
+ * every wild access the same key "crash:segv".  The TS lab wants the faulting
+ * function in the key, as for the other sanitizer reports: same crash
+ * context lines as vh.c, then a report header the driver understands and the
+ * sanitizer's own stack trace. */
+#ifdef VH_VARIANT_ASAN
+#include <signal.h>
+#include <inttypes.h>
+void __sanitizer_print_stack_trace(void);
+static void tsl_on_segv(int sig)
+{
+    char buf[256];
+    int n = snprintf(buf, sizeof(buf),
+        "\n{\"t\":\"crash\",\"kind\":\"segv\",\"case\":%" PRIu64
+        ",\"case_seed\":\"%" PRIu64 "\",\"worker\":%d}\n",
+        vh_case_index, vh_case_seed, vh_opts.worker);
+    if (write(1, buf, (size_t)n) < 0) {}
+    n = snprintf(buf, sizeof(buf), "\nVH-CRASH kind=segv case=%" PRIu64
+                 " case_seed=%" PRIu64 "\nVH-TRACE ", vh_case_index, vh_case_seed);
+    if (write(2, buf, (size_t)n) < 0) {}
+    if (write(2, vh_trace, strlen(vh_trace)) < 0) {}
+    n = snprintf(buf, sizeof(buf), "\n==%d==ERROR: AddressSanitizer: SEGV on unknown address (signal %d, reported by the tslab handler)\n",
+                 (int)getpid(), sig);
+    if (write(2, buf, (size_t)n) < 0) {}
+    __sanitizer_print_stack_trace();
+    signal(sig, SIG_DFL);
+    raise(sig);
+}
+#endif
+
 void tsl_init(void)
 {
+#ifdef VH_VARIANT_ASAN
+    signal(SIGSEGV, tsl_on_segv);
+    signal(SIGBUS, tsl_on_segv);
+#endif
     tsl_umem_mgr = umem_alloc_mgr_alloc();
     tsl_udict_mgr = udict_inline_mgr_alloc(0, tsl_umem_mgr, -1, -1);
     tsl_uref_mgr = uref_std_mgr_alloc(0, tsl_udict_mgr, 0);
